@@ -160,7 +160,9 @@ class C17(Prop):
     harness = "h_gencode.c"
     theorems = ["EaselModel.Props.C17." + t for t in (
         "tables_pinned", "table_ids", "no_initiator_stop", "read_write_roundtrip", "rna_objects_ok", "expand_is_iupac", "translation_spec", "translation_shared",
-        "initiator_spec", "initiator_settings", "window_split_invariant", "orf_stream_eq_spec", "orf_frame_declarative", "orf_numbering_and_order", "builtin_tables_ok")]
+        "initiator_spec", "initiator_settings", "window_split_invariant", "orf_stream_eq_spec", "orf_frame_declarative", "orf_numbering_and_order", "builtin_tables_ok",
+        "standard_code_by_amino_acid", "tables_differ_as_documented", "read_never_faults", "read_never_faults_hyps", "decode_digicodon_bounds", "decode_digicodon_inverse",
+        "compare_spec", "process_orf_spec")]
     claimed = True
     technique = ("Lean 4 proof: built-in tables regenerated from the tree = hand-pinned NCBI tables by `decide`; general theorems (any table, any "
                  "degeneracy matrix) that the triple loop computes the shared amino acid / all-initiators; ORF machine modelled and tied by exact "
@@ -174,7 +176,11 @@ class C17(Prop):
                   "single window; and (orf_stream_eq_spec) the streaming machine with its rolling codon / degeneracy countdown / three interleaved "
                   "frames emits, for each frame of either strand, exactly the ORF records of a sequential one-frame ORF finder over that frame's "
                   "codons (coordinates, residues, first residue M when initiators are required, minimum length, flush at the strand end). "
-                  "The machine model is tied to the tree by exact differential run and monitored against an independent ORF finder in Python.")
+                  "The machine model is tied to the tree by exact differential run and monitored against an independent ORF finder in Python. "
+                  "Independently of the pinned strings, tables_differ_as_documented / standard_code_by_amino_acid (`decide` over the regenerated tables) state every table as its "
+                  "documented differences from the standard code + its initiation codons, and the standard code by amino acid. read_never_faults: the column loop of esl_gencode_Read "
+                  "with every array access checked never leaves its arrays, for any bytes; decode_digicodon_bounds (every int), decode_digicodon_inverse, compare_spec, process_orf_spec "
+                  "(emission iff length >= minlen, numbering, frame label, coordinates).")
     level_note = ("Trusted: Lean kernel + standard axioms; table dumper; hand model fidelity checked by the differential run (all 18^3 triplets x 18 tables "
                   "x 3 settings every run). The one-frame finder is proved equal to the declarative 'split the frame at stops, drop the codons before the first "
                   "initiator, keep >= minlen' (orf_frame_declarative). Read(Write t) = t is a `decide` theorem over all 18 tables x 3 settings on the "
@@ -184,8 +190,14 @@ class C17(Prop):
     trusted_base = ["table dumper translate/tables_gencode.py (#includes esl_gencode.c, prints esl_transl_tables[])",
                     "hand model of esl_gencode.c tied by exact differential run (h_gencode.c, ASan+UBSan)",
                     "the nucleotide/amino alphabets are the C08 constructor models (C08: ctor_reproduces_tables)"]
-    assumptions = ["esl_sqio_ReadWindow delivers windows of the strand in reading order with a 2-residue context (C04); the harness builds those windows itself",
-                   "the first window of a sequence has >= 3 residues (esl-translate uses a fixed window of 4092)",
+    assumptions = ["public functions of esl_gencode.c: Create/Destroy/Set/SetInitiatorAny/SetInitiatorOnlyAUG/Read/Write/GetTranslation/IsInitiator/DecodeDigicodon/DumpAltCodeTable/Compare/"
+                   "WorkstateCreate/WorkstateDestroy/ProcessStart/ProcessPiece/ProcessOrf/ProcessEnd are all driven against the model with exact comparison; DumpAltCodeTable is formatting only (no theorem); "
+                   "GetTranslation/IsInitiator/DecodeDigicodon on codes >= Kp / indices outside 0..63 are outside their contracts (the model says which inputs fault: decode_digicodon_bounds; not run against the code, "
+                   "where an ASan death would count as a violation)",
+                   "esl_gencode_Read: line splitting + the five anchored regular expressions are modelled by matchLine (total by construction) and tied by exact comparison on byte-level damaged files (readm: flips, "
+                   "insertions, deletions, truncation, duplicated / swapped lines, NUL / high bytes / CR / tab / form feed)",
+                   "esl_sqio_ReadWindow delivers windows of the strand in reading order with a 2-residue context (C04); the harness builds those windows itself",
+                   "the first window of a sequence has >= 2 residues (generated: 2, 3, ...; esl-translate uses a fixed window of 4092); a first window of 1 residue makes ProcessStart read the sentinel: outside the contract",
                    "allocation never fails"]
     rule = ("cases = (table, initiator setting) x {all 18^3 triplets; DNA sequences with stops/initiators/degenerate runs at the ends and inside, "
             "min lengths, strands, window splits}; non-trivial = an ORF list with at least one ORF or a full triplet table; distinct by output trace")
@@ -241,6 +253,19 @@ class C17(Prop):
             rows = [list(r) for r in base]; del rows[li]; ops.append("read hex=%s" % ncbi(rows))
             if li: ops.append("read hex=%s" % ("\n".join(("  %-6s = %s" if k != li else "  %-6s =  %s") % base[k] for k in range(5)) + "\n").encode().hex())
         out.append({"name": "read-damage", "ops": ops, "sticky": 0})
+        # the small public functions: DecodeDigicodon for every int in a range around 0..63 (beyond: reads of sym[4..Kp], the NUL,
+        # the terminating NUL of sym[]), DumpAltCodeTable, Compare on pairs of codes
+        out.append({"name": "small-api", "sticky": 0, "ops": ["alttable"] + ["decode d=%d" % d for d in range(0, 304)] +
+                    ["decode d=%d nt=rna" % d for d in (0, 3, 12, 15, 48, 63, 64, 287, 288, 303)]})
+        # (an index outside 0..63 is outside the documented contract; the bounds theorem decode_digicodon_bounds says which ints read outside sym[])
+        ops = []
+        for t1 in (1, 2, 4, 11, 25):
+            for t2 in (1, 4, 11, 12, 25):
+                for i1, i2, meta in (("table", "table", 0), ("table", "table", 1), ("any", "any", 0), ("aug", "aug", 1), ("table", "any", 0), ("aug", "any", 0)):
+                    ops.append("compare id=%d init=%s id2=%d init2=%s meta=%d" % (t1, i1, t2, i2, meta))
+        ops += ["compare id=1 init=table id2=1 init2=table meta=1 nt2=rna", "compare id=1 init=table nt=rna id2=1 init2=table meta=1 nt2=rna",
+                "compare id=1 init=aug nt=rna id2=1 init2=aug meta=0", "compare id=7 init=table id2=1 init2=table meta=0", "compare id=1 init=table id2=8 init2=table meta=0"]
+        out.append({"name": "compare", "sticky": 0, "ops": ops})
         def orf(dna, **kw):
             d = dict(id=1, init="any", using=0, minlen=0, strand="b", cuts="-"); d.update(kw)
             return "orfs id=%(id)d init=%(init)s using=%(using)d minlen=%(minlen)d strand=%(strand)s dna=%(dna)s cuts=%(cuts)s" % dict(d, dna=dna.encode().hex() or "-")
@@ -318,12 +343,62 @@ class C17(Prop):
         txt = "\n".join(lines) + ("\n" if rng.random() < 0.9 else "")
         return txt.encode("latin1")
 
+    def mutated_ncbi_text(self, rng, tid):
+        """a valid NCBI genetic-code file damaged at the byte level (flips, insertions, deletions, duplicated / swapped / truncated
+        lines, stray NULs, high bytes, CR, tabs, form feeds): compared exactly with the model (no independent oracle: the
+        regular-expression corner cases are the model's business); whatever comes back must be ok or eformat, never a fault"""
+        aas, starts = PINNED[tid]
+        b1 = "".join("TCAG"[p // 16] for p in range(64)); b2 = "".join("TCAG"[(p % 16) // 4] for p in range(64))
+        b3 = "".join("TCAG"[p % 4] for p in range(64))
+        txt = bytearray(("    AAs  = %s\n  Starts = %s\n  Base1  = %s\n  Base2  = %s\n  Base3  = %s\n" % (aas, starts, b1, b2, b3)).encode())
+        for _ in range(rng.choice([1, 1, 1, 2, 3, 6])):
+            r = rng.random(); n = len(txt)
+            if n == 0: break
+            i = rng.randrange(n)
+            if r < 0.3: txt[i] = rng.choice([rng.randrange(256), rng.randrange(32, 127), 0x20, 0x09, 0x0d, 0x0c, 0x0b, 0x3d, 0x23, 0x2a, 0x2d, 0x4d, 0x6d, 0x55, 0x75, 0xff, 0x80])
+            elif r < 0.45: txt[i:i] = bytes([rng.choice([0x20, 0x09, 0x0a, 0x0d, 0x3d, 0x41, 0x54, 0x2a, 0x2d, rng.randrange(1, 256)])])
+            elif r < 0.6: del txt[i]
+            elif r < 0.68: del txt[i:]                                                  # truncated file
+            elif r < 0.76:
+                lines = bytes(txt).split(b"\n"); j = rng.randrange(len(lines)); lines.insert(j, lines[rng.randrange(len(lines))]); txt = bytearray(b"\n".join(lines))
+            elif r < 0.84:
+                lines = bytes(txt).split(b"\n"); a, b = rng.randrange(len(lines)), rng.randrange(len(lines)); lines[a], lines[b] = lines[b], lines[a]; txt = bytearray(b"\n".join(lines))
+            elif r < 0.9: txt[i:i] = rng.choice([b"\n", b"\n\n", b"\n# c\n", b"\r\n", b" \n \n"])
+            elif r < 0.95: txt = bytearray(bytes(txt).replace(b"T", rng.choice([b"U", b"t", b"u"])))  # RNA / lower-case bases (also hits AAs 'T' = Thr)
+            else: txt = bytearray(bytes(txt).replace(b"  =", rng.choice([b"=", b" =", b"   =", b"\t="]), rng.choice([1, 5])))
+        return bytes(txt).split(b"\0")[0] if rng.random() < 0.5 else bytes(txt)
+
+    def boundary_orfs(self, rng, tid):
+        """ORFs of exactly minlen and minlen-1 residues; sequences of 0..5 residues; first window of 2 residues, later windows of
+        1 and 2; both strand switches together; with and without required initiators"""
+        ops = []
+        aas, _ = PINNED[tid]
+        sense = ["".join(("TCAG"[p // 16], "TCAG"[(p % 16) // 4], "TCAG"[p % 4])) for p in range(64) if aas[p] != "*"]
+        stops = ["".join(("TCAG"[p // 16], "TCAG"[(p % 16) // 4], "TCAG"[p % 4])) for p in range(64) if aas[p] == "*"]
+        m = rng.choice([1, 2, 3, 5, 20])
+        for n in (m - 1, m, m + 1):
+            if n < 1: continue
+            body = "ATG" + "".join(rng.choice(sense) for _ in range(n - 1))
+            for lead, tail in (("", rng.choice(stops)), (rng.choice(["A", "CC"]), ""), (rng.choice(stops), rng.choice(stops) + "G")):
+                dna = lead + body + tail
+                init, using = rng.choice([("any", 0), ("table", 1), ("aug", 2)])
+                L = len(dna)
+                cuts = rng.choice(["-", "2," + ",".join(["1"] * (L - 2)), "2," + ",".join(["2"] * ((L - 2) // 2) + (["1"] if (L - 2) % 2 else [])),
+                                   "3," + ",".join(["1"] * (L - 3))]) if L >= 4 else "-"
+                cuts = cuts.rstrip(",")
+                for strand in ("w", "c", rng.choice("bn")):
+                    ops.append("orfs id=%d init=%s using=%d minlen=%d strand=%s dna=%s cuts=%s" % (tid, init, using, m, strand, dna.encode().hex(), cuts))
+        for L in range(0, 6):
+            dna = "".join(rng.choice("ACGTN") for _ in range(L))
+            ops.append("orfs id=%d init=any using=0 minlen=0 strand=b dna=%s cuts=%s" % (tid, dna.encode().hex() or "-", "-" if L < 3 else rng.choice(["-", "2," + ",".join(["1"] * (L - 2))])))
+        return ops
+
     def rand_cuts(self, rng, L):
         if L < 3: return "-"
         r = rng.random()
         if r < 0.25: return "-"
         cuts = []
-        first = rng.choice([3, 3, 4, 5, rng.randrange(3, L + 1)])
+        first = rng.choice([2, 3, 3, 4, 5, rng.randrange(3, L + 1)])
         first = min(first, L)
         cuts.append(first); rest = L - first
         style = rng.random()
@@ -363,6 +438,15 @@ class C17(Prop):
                         tid, init, using, minlen, strand, dna.encode().hex() or "-", self.rand_cuts(rng, L)))
             if rng.random() < 0.35:
                 ops.append("read hex=%s%s" % (self.rand_ncbi_text(rng, tid).hex(), " nt=rna" if rng.random() < 0.2 else ""))
+            if rng.random() < 0.4:
+                ops.append("read hex=%s%s" % (self.mutated_ncbi_text(rng, tid).hex() or "-", " nt=rna" if rng.random() < 0.2 else ""))
+                ops[-1] = "readm" + ops[-1][4:]
+            if rng.random() < 0.08:
+                ops += self.boundary_orfs(rng, tid)
+            if rng.random() < 0.1:
+                ops.append("decode d=%d%s" % (rng.choice([rng.randrange(0, 64), rng.randrange(0, 304)]), rng.choice(["", " nt=rna"])))
+                ops.append("compare id=%d init=%s id2=%d init2=%s meta=%d%s" % (tid, rng.choice(["table", "any", "aug"]), rng.choice(IDS + [tid, tid]),
+                                                                                 rng.choice(["table", "any", "aug"]), rng.randrange(2), rng.choice(["", "", " nt2=rna", " nt=rna nt2=rna"])))
             if rng.random() < 0.2:
                 ops.append("codon id=%d init=%s a=%d b=%d c=%d" % (tid, rng.choice(["table", "any", "aug"]), rng.randrange(18), rng.randrange(18), rng.randrange(18)))
             out.append({"name": "gen%d" % i, "ops": ops, "sticky": 0})
@@ -384,6 +468,40 @@ class C17(Prop):
                 got = l.split("=", 1)[1] if "=" in l else ""
                 if got != ",".join(map(str, IDS)):
                     return Failure("monitor", "the library offers tables %s, pinned set is %s" % (got, IDS))
+                continue
+            if name == "decode":
+                dd = int(d["d"])
+                if 0 <= dd < 64:
+                    letters = "ACGU" if d.get("nt") == "rna" else "ACGT"
+                    want = "ok " + "".join(letters[i] for i in (dd // 16, (dd % 16) // 4, dd % 4)).encode().hex()
+                    if l != want: return Failure("monitor", "DecodeDigicodon(%d) answered %r, the codon is %s" % (dd, l[:40], want))
+                continue
+            if name == "alttable":
+                txt = unhex(l.split()[1]).decode("latin1").split("\n") if l.startswith("ok ") else []
+                ids = []
+                for row in txt[2:]:
+                    if row.strip(): ids.append(int(row.split()[0]))
+                if not l.startswith("ok ") or txt[:1] != ["id  description"] or sorted(ids) != IDS:
+                    return Failure("monitor", "DumpAltCodeTable does not list exactly the pinned table ids: %s" % ids)
+                continue
+            if name == "compare":
+                t1, t2 = int(d.get("id", 1)), int(d.get("id2", 1))
+                if t1 not in PINNED or t2 not in PINNED:
+                    if l != "enotfound": return Failure("monitor", "compare with an unknown table id answered %r" % l[:40])
+                    continue
+                a1 = pinned_arrays(t1, d.get("init", "table")); a2 = pinned_arrays(t2, d.get("init2", "table"))
+                same = (list(a1[0]) == list(a2[0]) and list(a1[1]) == list(a2[1]) and d.get("nt", "dna") == d.get("nt2", "dna")
+                        and (int(d.get("meta", 0)) == 0 or t1 == t2))
+                if l != ("ok same" if same else "ok differ"):
+                    return Failure("monitor", "esl_gencode_Compare(table %d/%s, table %d/%s, meta=%s) answered %r" % (t1, d.get("init"), t2, d.get("init2"), d.get("meta"), l[:40]))
+                continue
+            if name == "readm":
+                if not (l == "eformat" or l.startswith("ok id=-1 desc=- basic=")):
+                    return Failure("monitor", "esl_gencode_Read on a damaged file answered neither ok nor eformat: %r" % l[:60])
+                if l.startswith("ok"):
+                    r = kv(l); bs = list(unhex(r["basic"]))
+                    if len(bs) != 64 or STOP not in bs or any(x not in bs for x in range(20)) or any(x >= 20 and x != STOP for x in bs):
+                        return Failure("monitor", "esl_gencode_Read accepted a table that is not a genetic code (a missing amino acid / no stop / a non-residue)")
                 continue
             if name == "read":
                 want = py_read(unhex(d["hex"]))
@@ -440,7 +558,7 @@ class C17(Prop):
                     codes = [NUC.index(c) for c in dna]
                 except ValueError:
                     continue
-                strands = {"b": "wc", "w": "w", "c": "c"}[d["strand"]]
+                strands = {"b": "wc", "w": "w", "c": "c", "n": ""}[d["strand"]]
                 want = spec_orfs(codes, basic, ini, int(d["using"]) != 0, int(d["minlen"]), strands)
                 toks = l.split()
                 if toks[0] != "ok": return Failure("monitor", "orfs answered %r" % l[:80])
